@@ -37,7 +37,7 @@ def run(ctx):
     ctx.rule = ("random quiescent-point schedules of 30 events + drain: request starts of 6 kinds (1, 2, 3 and 4 fragments; "
                 "blocking and non-blocking; <= 3 live), matching / wrong ACKs, responses, timer expiry, cancellation, rare "
                 "close / loss; non-trivial = >= 2 requests and >= 4 event kinds; distinct by event list")
-    run_generic(ctx, hostdrive.monitor_c11, ctx.scale(120, 3000), weights=dict(start=5, ack=6, rsp=2, tick=2, cancel=1, badack=1, close=0.1, lost=0.05))
+    run_generic(ctx, hostdrive.monitor_c11, ctx.scale(300, 3000), weights=dict(start=5, ack=6, rsp=2, tick=2, cancel=1, badack=1, close=0.1, lost=0.05))
 
 
 def search(ctx):
